@@ -32,14 +32,14 @@ CasesOf(s) ==
   \o (IF Spellable(s) THEN <<[e |-> "lexval", kind |-> "bad", text |-> <<cSQUOTE>> \o EscDelim(s, cSQUOTE), doc |-> JNull, want |-> JNull]>> ELSE <<>>)
 
 Idents == {<<97>>, <<65>>, <<95>>, <<97, 49>>, <<95, 97>>, <<97, 98>>, <<97, 66>>, <<97, 95, 49>>, <<90, 122, 48, 57>>}
-UidCases(z) == LET ids == SetToSeq(Idents)
+UidCases(zzdummy) == LET ids == SetToSeq(Idents)
             IN [i \in DOMAIN ids |-> [e |-> "lexval", kind |-> "uid", text |-> ids[i], doc |-> KeyDoc(ids[i]), want |-> Marker]]
 
 RECURSIVE Flat(_)
 Flat(ss) == IF ss = <<>> THEN <<>> ELSE Head(ss) \o Flat(Tail(ss))
 
-EnumCases(z) == LET all == SetToSeq(UNION {[1..n -> Alpha] : n \in 0..N}) IN Flat([i \in DOMAIN all |-> CasesOf(all[i])]) \o UidCases(0)
-SpellCases(z) == LET ps == ndJsonDeserialize(IOEnv.IN) IN Flat([i \in DOMAIN ps |-> CasesOf(ps[i].s)])
+EnumCases(zzdummy) == LET all == SetToSeq(UNION {[1..n -> Alpha] : n \in 0..N}) IN Flat([i \in DOMAIN all |-> CasesOf(all[i])]) \o UidCases(0)
+SpellCases(zzdummy) == LET ps == ndJsonDeserialize(IOEnv.IN) IN Flat([i \in DOMAIN ps |-> CasesOf(ps[i].s)])
 
 ASSUME ndJsonSerialize(IOEnv.OUT, IF IOEnv.MODE = "enum" THEN EnumCases(0) ELSE SpellCases(0))
 =============================================================================
